@@ -275,6 +275,23 @@ class CSSImportRule(cssrule.CSSRule):
 
     def _setHref(self, href):
         self._checkReadonly()
+        old = (
+            self._href,
+            getattr(self, 'hrefFound', False),
+            getattr(self, '_styleSheet', None),
+        )
+        try:
+            self.__setHref(href)
+        except xml.dom.DOMException:
+            # e.g. the imported sheet does not parse (raising mode): keep all
+            self._href, self.hrefFound, self._styleSheet = old
+            for i, item in enumerate(self.seq):
+                if 'href' == item.type:
+                    self._seq[i] = (old[0], item.type, item.line, item.col)
+                    break
+            raise
+
+    def __setHref(self, href):
         # set new href
         self._href = href
         # update seq
